@@ -8,7 +8,7 @@ use serde::de::DeserializeOwned;
 use serde_json::Value;
 use std::collections::HashMap;
 use std::io::ErrorKind;
-use std::sync::atomic::{AtomicU64, Ordering};
+use std::sync::atomic::{AtomicBool, AtomicU64, Ordering};
 use std::sync::{Arc, Mutex as StdMutex};
 use tokio::io::AsyncWriteExt;
 use tokio::io::{BufReader, BufWriter};
@@ -40,6 +40,11 @@ struct RequestWriter {
 struct AsyncClientInner {
     writer: Mutex<RequestWriter>,
     pending: StdMutex<PendingRequests>,
+    /// Set by the response loop, under the `pending` lock and together with the
+    /// drain, once the connection has failed; read under the same lock by
+    /// `PendingRequestGuard::register`, which then refuses. A call therefore
+    /// either registered before the drain (and is failed by it) or is refused.
+    failed: AtomicBool,
     next_id: AtomicU64,
     shutdown: StdMutex<Option<oneshot::Sender<()>>>,
 }
@@ -78,6 +83,9 @@ impl PendingRequestGuard {
     ) -> Result<Self, RepeError> {
         {
             let mut pending = lock_pending_map(&inner.pending);
+            if inner.failed.load(Ordering::Relaxed) {
+                return Err(connection_failed_error(request_id));
+            }
             if pending.contains_key(&request_id) {
                 return Err(duplicate_request_id_error(request_id));
             }
@@ -119,6 +127,7 @@ impl AsyncClient {
                 mid_frame: false,
             }),
             pending: StdMutex::new(HashMap::new()),
+            failed: AtomicBool::new(false),
             next_id: AtomicU64::new(1),
             shutdown: StdMutex::new(Some(shutdown_tx)),
         });
@@ -897,18 +906,24 @@ async fn fail_all_pending(inner: &std::sync::Weak<AsyncClientInner>, err: RepeEr
         return;
     };
 
-    {
-        let mut writer = inner_ref.writer.lock().await;
-        let _ = writer.io.shutdown().await;
-    }
-
+    // Fail the waiters before touching the writer: a caller stalled in
+    // `write_request` (the peer stopped reading) holds the writer mutex for as
+    // long as the stall lasts. Marking the connection failed in the same
+    // critical section as the drain is what makes that order safe: a call that
+    // registers afterwards is refused instead of waiting for a reply.
     let waiters = {
         let mut pending = lock_pending_map(&inner_ref.pending);
+        inner_ref.failed.store(true, Ordering::Relaxed);
         pending.drain().collect::<Vec<_>>()
     };
 
     for (request_id, sender) in waiters {
         let _ = sender.send(Err(clone_fatal_error_for_waiter(&err, request_id)));
+    }
+
+    {
+        let mut writer = inner_ref.writer.lock().await;
+        let _ = writer.io.shutdown().await;
     }
 }
 
@@ -970,6 +985,13 @@ fn response_channel_closed_error(request_id: u64) -> RepeError {
     RepeError::Io(std::io::Error::new(
         ErrorKind::ConnectionAborted,
         format!("response channel closed for request {request_id}"),
+    ))
+}
+
+fn connection_failed_error(request_id: u64) -> RepeError {
+    RepeError::Io(std::io::Error::new(
+        ErrorKind::NotConnected,
+        format!("connection failed; request {request_id} not sent"),
     ))
 }
 
